@@ -76,10 +76,22 @@ def run_c11(cfg: HCfg, c: Ctx) -> Any:
     deps = _edges(c, labels)
     desc, anc = closure(labels, deps)
     is_setup = {l: bool(c.choose(2, "setup")) for l in labels}
-    takes_input = {l: (not deps[l] and bool(c.choose(2, "input"))) for l in labels}
+    # a dependency-free node takes the DAG input, a constant, or nothing at all (then it is a root of the id graph)
+    if cfg.length == 0:
+        # build-validation only: every combination
+        root_kind = {l: (("input", "const", "none")[c.choose(3, "rootkind")] if not deps[l] else None) for l in labels}
+        lead_const = bool(c.choose(2, "lead_const"))  # nodes with dependencies also take a constant first
+    else:
+        pattern = ("const", "none", "input-for-non-setup")[c.choose(3, "rootpattern")]
+        root_kind = {l: (None if deps[l] else (pattern if pattern != "input-for-non-setup" else ("const" if is_setup[l] else "input"))) for l in labels}
+        lead_const = True
+    takes_input = {l: root_kind[l] == "input" for l in labels}
     flavour = cfg.flavours[c.choose(len(cfg.flavours), "flavour")] if len(cfg.flavours) > 1 else cfg.flavours
     # the history
+    graph_roots = [l for l in labels if root_kind[l] == "none"]
     OPS = ["call", "setup", "exec"] + ["exec:" + l for l in labels] + ["setup:" + l for l in labels] + ["setup:[]"] + (["deepcopy"] if cfg.deepcopy else [])
+    if graph_roots:
+        OPS.append("setupRT:%s:%s" % (graph_roots[0], labels[-1]))  # setup(root_nodes=[r], target_nodes=[t])
     returns_none = bool(is_setup[labels[0]] and c.choose(2, "returns_none"))  # the first setup node returns None
     hist = [OPS[c.choose(len(OPS), "op")] for _ in range(cfg.length)]
     c.heavy()
@@ -101,15 +113,19 @@ def run_c11(cfg: HCfg, c: Ctx) -> Any:
 
     xns = {l: xn(make(l), setup=is_setup[l], resource=Resource.main_thread) for l in labels}
 
+    def args_of(l: str, x: Any, r: Dict[str, Any]) -> List[Any]:
+        if not deps[l]:
+            return [x] if root_kind[l] == "input" else ([7] if root_kind[l] == "const" else [])
+        return ([7] if lead_const else []) + [r[d] for d in deps[l]]
+
     def pipe(x):  # type: ignore[no-untyped-def]
         r: Dict[str, Any] = {}
         for l in labels:
-            args = ([x] if takes_input[l] else ([7] if not deps[l] else [])) + [r[d] for d in deps[l]]
-            r[l] = xns[l](*args)
+            r[l] = xns[l](*args_of(l, x, r))
         return tuple(r[l] for l in labels)
 
     pipe.__qualname__ = pipe.__name__ = "pipe"
-    data: Dict[str, Any] = {"deps": deps, "setup": is_setup, "takes_input": takes_input, "history": hist, "flavour": flavour, "returns_none": returns_none}
+    data: Dict[str, Any] = {"deps": deps, "setup": is_setup, "root_kind": root_kind, "lead_const": lead_const, "takes_input": takes_input, "history": hist, "flavour": flavour, "returns_none": returns_none}
     try:
         d = dag(pipe, is_async=(flavour == "a"))
         built = True
@@ -149,6 +165,21 @@ def run_c11(cfg: HCfg, c: Ctx) -> Any:
             sel = set(labels) if not arg else ({arg} | anc[arg])
             ex = dd.executor(target_nodes=[arg]) if arg else dd.executor()
             out = _run(ex, X)
+        elif name == "setupRT":
+            rr, _, tt = arg.partition(":")
+            cone = {rr} | desc[rr]
+            c.assume(tt in cone)  # (a target outside the part selected by the roots is a caller error)
+            sel = {l for l in cone if (l == tt or l in anc[tt]) and is_setup[l]}
+            r = dd.setup(target_nodes=[tt], root_nodes=[rr])
+            if hasattr(r, "__await__"):
+                import asyncio
+
+                async def w2(r: Any = r) -> Any:
+                    return await r
+
+                asyncio.run(w2())
+            out = None
+            c.cover("w_setup_root_target")
         else:  # setup
             if arg == "[]":
                 sel = set()
@@ -166,7 +197,7 @@ def run_c11(cfg: HCfg, c: Ctx) -> Any:
             out = None
         entered = list(cnt.op_entered)
         want_setup_run = [l for l in setups if l in sel and l not in before_done]
-        want_run = sorted(want_setup_run + ([l for l in labels if not is_setup[l] and l in sel] if name != "setup" else []))
+        want_run = sorted(want_setup_run + ([l for l in labels if not is_setup[l] and l in sel] if name not in ("setup", "setupRT") else []))
         d2 = {**data, "step": step, "op": op, "entered": entered, "done_before": sorted(before_done)}
         for l in setups:
             c.check(cnt.n.get((cur, l), 0) <= 1, "setup node %s executed %d times on one DAG instance" % (l, cnt.n.get((cur, l), 0)), prop="C11", data=d2)
@@ -184,11 +215,11 @@ def run_c11(cfg: HCfg, c: Ctx) -> Any:
                 if is_setup[l]:
                     val[l] = done[cur][l]
                     continue
-                args = ([X] if takes_input[l] else ([7] if not deps[l] else [])) + [val[dep] for dep in deps[l]]
+                args = args_of(l, X, val)
                 val[l] = SymVal(vapp("f_" + l, [lift(a) for a in args]))
             c.check(veq(out, tuple(val[l] for l in labels)), "operation %s returned values that do not reuse the first setup results / are not this call's results" % op,
                     prop="C11", data={**d2, "got": out, "want": tuple(val[l] for l in labels)})
-        if setups and before_done and name != "setup":
+        if setups and before_done and name not in ("setup", "setupRT"):
             c.cover("w_reuse")
     c.cover("states", hash(repr(data)))
     return data
@@ -372,6 +403,8 @@ def run_c18(cfg: HCfg, c: Ctx) -> Any:
     takes_input = {l: (not deps[l] and not (setup0 and l == labels[0]) and bool(c.choose(2, "input"))) for l in labels}
     # caching run selection, restart selection, optional second round on the same file
     sels = ["whole"] + ["target:" + l for l in labels] + ["deps_of:" + l for l in labels]
+    sels += ["deps_of:%s,%s" % (labels[i], labels[j]) for i in range(N) for j in range(i + 1, N)]  # cache_deps_of=[a, b]
+    flavour = cfg.flavours[c.choose(len(cfg.flavours), "flavour")] if len(cfg.flavours) > 1 else cfg.flavours
     sel1 = sels[c.choose(len(sels), "sel1")]
     restart_same_sel = bool(c.choose(2, "restart_same_sel"))
     restart_on_copy = bool(c.choose(2, "restart_on_copy"))
@@ -398,11 +431,11 @@ def run_c18(cfg: HCfg, c: Ctx) -> Any:
         return tuple(r[l] for l in labels)
 
     pipe.__qualname__ = pipe.__name__ = "pipe"
-    d = dag(pipe)
+    d = dag(pipe, is_async=(flavour == "a"))
     pristine = copy.deepcopy(d)  # an instance on which nothing ever ran (stands for a new process)
     tmp = tempfile.mkdtemp(prefix="sxc18")
     path = os.path.join(tmp, "cache.pkl")
-    data: Dict[str, Any] = {"deps": deps, "setup0": setup0, "takes_input": takes_input, "sel1": sel1, "restart_same_sel": restart_same_sel,
+    data: Dict[str, Any] = {"deps": deps, "setup0": setup0, "takes_input": takes_input, "sel1": sel1, "restart_same_sel": restart_same_sel, "flavour": flavour,
                             "restart_on_copy": restart_on_copy, "sel2": sel2}
 
     def kw_of(sel: str) -> Dict[str, Any]:
@@ -410,12 +443,20 @@ def run_c18(cfg: HCfg, c: Ctx) -> Any:
         if kind == "target":
             return {"target_nodes": [x]}
         if kind == "deps_of":
-            return {"cache_deps_of": [x]}
+            return {"cache_deps_of": x.split(",")}
         return {}
 
+    def members(sel: str) -> List[str]:
+        return sel.partition(":")[2].split(",") if ":" in sel else []
+
     def selected(sel: str) -> Set[str]:
-        kind, _, x = sel.partition(":")
-        return set(labels) if kind == "whole" else ({x} | anc[x])
+        kind = sel.partition(":")[0]
+        if kind == "whole":
+            return set(labels)
+        out: Set[str] = set()
+        for x in members(sel):
+            out |= {x} | anc[x]
+        return out
 
     try:
         rounds = [(sel1, d)] + ([(sel2, d)] if second_round else [])
@@ -431,7 +472,7 @@ def run_c18(cfg: HCfg, c: Ctx) -> Any:
                 content = pickle.load(f)
             file_ids = {k for k in content if k in labels}
             kind, _, x = sel.partition(":")
-            want_file = (selected(sel) | ({labels[0]} if setup_done_on_d else set())) - ({x} if kind == "deps_of" else set())
+            want_file = (selected(sel) | ({labels[0]} if setup_done_on_d else set())) - (set(members(sel)) if kind == "deps_of" else set())
             d2 = {**data, "round": rnd, "file": sorted(file_ids)}
             c.check(file_ids == want_file, "cache file holds results of %s, expected %s" % (sorted(file_ids), sorted(want_file)), prop="C18", data=d2)
             # ---- restart
@@ -441,8 +482,19 @@ def run_c18(cfg: HCfg, c: Ctx) -> Any:
             rkw = kw_of(rsel)
             X2 = c.val("x_restart%d" % rnd)
             entered.clear()
-            out2 = _run(target.executor(from_cache=path, **rkw), X2)
+            rex = target.executor(from_cache=path, **rkw)
+            out2 = _run(rex, X2)
             ran = list(entered)
+            # an executor is single use, also when it was started from a cache
+            try:
+                _run(rex, c.val("x_again%d" % rnd))
+                again: Any = "ran again"
+            except SXControl:
+                raise
+            except BaseException as e:
+                again = e
+            c.check(type(again).__name__ == "TawaziUsageError", "an executor started from a cache ran a second time: %r" % (again,), prop="C18", data=d2)
+            entered[:] = ran
             rset = selected(rsel)
             c.check(not (set(ran) & file_ids), "restart executed %s although their results are in the cache file" % sorted(set(ran) & file_ids), prop="C18",
                     data={**d2, "ran": ran})
@@ -462,9 +514,12 @@ def run_c18(cfg: HCfg, c: Ctx) -> Any:
                     data={**d2, "got": out2, "want": tuple(val[l] for l in labels), "first_run": out1})
             if kind == "whole" and restart_same_sel:
                 c.check(veq(out2, out1), "restart from a whole-DAG cache returned a different value", prop="C18", data={**d2, "got": out2, "first": out1})
-            if kind == "deps_of" and restart_same_sel and not (setup_done_on_target and x == labels[0]):
-                c.check(sorted(ran) == [x], "restart from cache_deps_of=[%s] executed %s instead of %s only" % (x, sorted(ran), x), prop="C18", data=d2)
+            if kind == "deps_of" and restart_same_sel:
+                only = sorted(m for m in members(sel) if not (setup_done_on_target and m == labels[0]))
+                c.check(sorted(ran) == only, "restart from cache_deps_of=%s executed %s instead of %s only" % (members(sel), sorted(ran), only), prop="C18", data=d2)
                 c.cover("w_deps_of_restart")
+                if len(members(sel)) > 1:
+                    c.cover("w_deps_of_two")
             if setup0 and not restart_on_copy and labels[0] in rset:
                 setup_done_on_d = True
             if rnd == 1:
